@@ -108,8 +108,9 @@ type TStep struct {
 }
 
 type Case struct {
-	Kind  string     `json:"kind"` // sleep | ticker | ticker-real | stop-real | sleep-real | race-real
+	Kind  string     `json:"kind"` // sleep | sleeps | ticker | ticker-real | stop-real | sleep-real | sleeps-real | race-real
 	Sleep *SleepCase `json:"sleep,omitempty"`
+	Multi []MSleep   `json:"sleeps,omitempty"` // concurrent_test.go: several SleepContext calls in one bubble
 	Real  *RealCase  `json:"real,omitempty"`
 	Race  *RaceCase  `json:"race,omitempty"` // race_test.go
 	Steps []TStep    `json:"steps,omitempty"`
@@ -138,14 +139,27 @@ type fail struct {
 type sleepObs struct {
 	res     string // nil | toosoon | ctxerr | other | panic
 	elapsed int64
-	ctxAt   int64 // instant at which the context's Done closes, -1 = never
-	isCtx   bool  // the returned error is exactly ctx.Err()
+	ctxAt   int64  // instant at which the context's Done closes, -1 = never
+	isCtx   bool   // the returned error is exactly ctx.Err()
 	errText string // res == "other": the error returned, ctx.Err() and context.Cause(ctx) at that moment
 }
 
 func runSleep(t *testing.T, c SleepCase) sleepObs {
 	var o sleepObs
+	flushPools()
 	synctest.Test(t, func(t *testing.T) {
+		o = sleepOnce(c)
+		synctest.Wait()
+	})
+	return o
+}
+
+// sleepOnce makes the SleepContext call of c at the current (virtual) instant and returns what it
+// observed once the call has returned. It must run inside a synctest bubble; several may run at once
+// (concurrent_test.go).
+func sleepOnce(c SleepCase) sleepObs {
+	var o sleepObs
+	{
 		start := time.Now()
 		ctx := context.Background()
 		var cancels []context.CancelFunc
@@ -246,8 +260,7 @@ func runSleep(t *testing.T, c SleepCase) sleepObs {
 		for _, cf := range cancels {
 			cf()
 		}
-		synctest.Wait()
-	})
+	}
 	return o
 }
 
@@ -810,6 +823,12 @@ func (x *runner) realPhase(budget time.Duration) {
 		res.Fail(vlib.Failure{Source: "monitor", Kind: f.kind, Params: f.params, What: f.what, Case: Case{Kind: "sleep-real"}})
 	}
 	res.Count("case.sleep-real")
+	if f := runSleepsReal(24); f != nil {
+		res.Count("monitor-failure." + f.kind)
+		res.Fail(vlib.Failure{Source: "monitor", Kind: f.kind, Params: f.params, What: f.what, Case: Case{Kind: "sleeps-real"}})
+	}
+	res.Case("sleeps-real", true, nil)
+	res.Count("case.sleeps-real")
 	cfgs := realConfigs()
 	slice := budget * 3 / 4 / time.Duration(len(cfgs))
 	for _, rc := range cfgs {
@@ -850,6 +869,8 @@ func replayReal(c Case) *fail {
 	switch c.Kind {
 	case "sleep-real":
 		return runSleepReal()
+	case "sleeps-real":
+		return runSleepsReal(400)
 	case "stop-real":
 		f, _ := runStopReal(*c.Real, c.Real.Rounds, time.Now().Add(20*time.Second))
 		return f
@@ -1236,6 +1257,9 @@ func (x *runner) evalCase(c Case) (*fail, []string, bool) {
 	case "sleep":
 		o := runSleep(x.t, *c.Sleep)
 		return monitorSleep(*c.Sleep, o), []string{sleepLine(*c.Sleep, o)}, c.Sleep.D > 0
+	case "sleeps":
+		obs := runSleeps(x.t, c.Multi)
+		return monitorSleeps(c.Multi, obs), sleepsLines(c.Multi, obs), len(c.Multi) >= 2
 	case "ticker":
 		tr := runTicker(x.t, c.Steps, c.Seed)
 		return tr.fail, tr.lines, tr.ticks >= 2 || tr.raced
@@ -1279,7 +1303,7 @@ func (x *runner) do(c Case, tag string) {
 	f, lines, nontrivial := x.evalCase(c)
 	x.res.Count("case." + tag)
 	key := c.String()
-	if c.Kind == "ticker" {
+	if c.Kind == "ticker" || c.Kind == "sleeps" {
 		key += strings.Join(lines, ";")
 	}
 	x.res.Case(key, nontrivial, map[string]interface{}{"case": c, "trace": lines})
@@ -1411,6 +1435,9 @@ func (x *runner) shrink(c Case, kind string) Case {
 	if c.Kind == "sleep" && c.Sleep != nil {
 		return x.shrinkSleep(c, kind)
 	}
+	if c.Kind == "sleeps" {
+		return x.shrinkSleeps(c, kind)
+	}
 	if c.Kind != "ticker" || len(c.Steps) < 2 {
 		return c
 	}
@@ -1476,7 +1503,7 @@ func TestVerif(t *testing.T) {
 			t.Fatalf("cannot load replay: %v", err)
 		}
 		x := &runner{t: t, env: env, res: vlib.NewResult("C20", "")}
-		if c.Real != nil || c.Kind == "sleep-real" {
+		if c.Real != nil || c.Kind == "sleep-real" || c.Kind == "sleeps-real" {
 			fmt.Printf("replay %s (real clock)\n", c)
 			if f := replayReal(c); f != nil {
 				fmt.Printf("  FAILS %s: %s\n", f.kind, f.what)
@@ -1524,6 +1551,13 @@ func TestVerif(t *testing.T) {
 	for _, c := range loadCorpus(env.Corpus) {
 		for i := 0; i < 3; i++ {
 			x.do(c, "corpus")
+		}
+	}
+	// several calls in one bubble, overlapping in time, after calls that ended in every way a call can end
+	// (concurrent_test.go); twice: which of the goroutines that wake at one instant runs first varies
+	for rep := 0; rep < 2; rep++ {
+		for _, sc := range directedSleeps() {
+			x.do(Case{Kind: "sleeps", Multi: sc}, "sleeps-directed")
 		}
 	}
 	// the context shapes named by the property, at three scales
@@ -1633,7 +1667,9 @@ func TestVerif(t *testing.T) {
 	n := 0
 	for time.Now().Before(deadline) {
 		n++
-		switch rnd.Pick(4, 6, 2, 1) {
+		switch rnd.Pick(4, 6, 2, 1, 2) {
+		case 4:
+			x.do(Case{Kind: "sleeps", Multi: genSleeps(rnd.Fork())}, "sleeps-random")
 		case 0:
 			c := genSleep(rnd)
 			x.do(Case{Kind: "sleep", Sleep: &c}, "sleep-random")
